@@ -166,6 +166,26 @@ def sub_lifecycle_family():
                     cfg["dsts"] = ["mc", "a1", "a2", "a3", "a4", "a5"]
                     out.append({"cfg": cfg, "ev": monpass.add_adv(ev), "sched": sched, "variant": v, "ann0": ["I1"], "rand": rand,
                                 "insts": ["I1"], "t_extra": 14, "diag": {"variant": v, "family": name}})
+    # the application withdraws the service from inside client_unsubscribed, while the subscriptions of a rebooted peer are removed
+    for v in ("A", "B0"):
+        tc = TIMINGS[v]
+        for n_subs in (1, 2):
+            for how in ("reboot", "stop_sub", "expire"):
+                subs = [dict(sub, eg=g, ttl=3, acc=True) for g in (1, 2)[:n_subs]]
+                sched = [{"t": 0, "j": 0, "op": "arm_withdraw", "inst": "I1"}, {"t": 0, "j": 0, "op": "ann_start"},
+                         {"t": 2, "j": 0, "op": "rx", "src": "a1", "mc": False, "sid": 5, "rb": True, "uc": True, "es": subs},
+                         {"t": 2, "j": 1, "op": "rx", "src": "a2", "mc": False, "sid": 1, "rb": True, "uc": True, "es": [dict(sub, ttl=16777215, acc=True)]}]
+                if how == "reboot":
+                    sched.append({"t": 3, "j": 0, "op": "rx", "src": "a1", "mc": False, "sid": 1, "rb": True, "uc": True, "es": []})
+                elif how == "stop_sub":
+                    sched.append({"t": 3, "j": 0, "op": "rx", "src": "a1", "mc": False, "sid": 6, "rb": True, "uc": True, "es": [dict(subs[0], ttl=0)]})
+                rand = [0] * 6
+                ev, _ = annenv.run_schedule(sched, tc, ["I1"], ann0=["I1"], rand=list(rand), t_extra=12)
+                ev = [e for e in ev if not (e.get("k") == "in" and e.get("op") == "arm_withdraw")]
+                cfg = annenv.mon_cfg(tc, ["I1"], ["I1"])
+                cfg["dsts"] = ["mc", "a1", "a2", "a3", "a4", "a5"]
+                out.append({"cfg": cfg, "ev": monpass.add_adv(ev), "sched": sched, "variant": v, "ann0": ["I1"], "rand": rand,
+                            "insts": ["I1"], "t_extra": 12, "diag": {"variant": v, "family": "service withdrawn from inside client_unsubscribed: " + how}})
     # a subscription accepted while the instance is still in its initial wait phase; the service is stopped before its first offer
     for v in ("D", "E", "C"):
         tc = TIMINGS[v]
@@ -206,7 +226,7 @@ def run(seed, count, length, insts, variants, monitor_cfg_extra=None, **kw):
 
 def rerun(p):
     tc = TIMINGS[p["variant"]]
-    ev, _ = annenv.run_schedule(p["sched"], tc, p["insts"], ann0=p["ann0"], rand=list(p["rand"]), t_extra=p.get("t_extra"))
+    ev, _ = annenv.run_schedule(p["sched"], tc, p["insts"], ann0=p["ann0"], rand=list(p["rand"]), t_extra=p.get("t_extra"), send_failures=p.get("fails") or ())
     cfg = annenv.mon_cfg(tc, p["insts"], p["ann0"])
     cfg["dsts"] = ["mc", "a1", "a2", "a3", "a4", "a5"]
     return {"cfg": cfg, "ev": monpass.add_adv(ev), "sched": p["sched"], "variant": p["variant"], "ann0": p["ann0"],
@@ -214,7 +234,7 @@ def rerun(p):
 
 
 def payload(tr):
-    return {k: tr[k] for k in ("sched", "variant", "ann0", "rand", "insts")} | {"trace": tr["ev"], "t_extra": tr.get("t_extra")}
+    return {k: tr[k] for k in ("sched", "variant", "ann0", "rand", "insts")} | {"trace": tr["ev"], "t_extra": tr.get("t_extra"), "fails": tr.get("fails")}
 
 
 def conform_by_variant(ctx, traces, limit):
